@@ -1,0 +1,6 @@
+// +build !verif
+
+package event
+
+// verifAsyncPost is a no-op outside verification builds (see async_verif.go).
+func verifAsyncPost(mux *TypeMux, ev interface{}) bool { return false }
